@@ -8,7 +8,8 @@
         key1Tokens := []string{tokens[i]}
         if i+1 < len(tokens) && requiresArgument(ToUpper(tokens[i])) { i++; key1Tokens = append(key1Tokens, tokens[i]) }
         i++
-        key2Tokens := []string{tokens[i]}                      // <- unguarded
+        if i >= len(tokens) { return false }                   // fix c12-6
+        key2Tokens := []string{tokens[i]}
         if i+1 < len(tokens) && requiresArgument(ToUpper(tokens[i])) { i++; key2Tokens = append(key2Tokens, tokens[i]) }
         ... i++
 
@@ -34,10 +35,7 @@ Definition or_step (tokens : list str) (i : nat) : option (option (list str * li
   if (length tokens <=? i + 2) then Some None
   else
     ' (k1, i1) <- take_key tokens (i + 1) ;;
-    ' (k2, i2) <- take_key tokens (i1 + 1) ;;
-    Some (Some (k1, k2, i2 + 1)).
-
-Definition classify_or (tokens : list str) (i : nat) : option finding :=
-  if (i + 3 =? length tokens) &&
-     match nth_error tokens (i + 1) with Some t => requires_argument (to_upper t) | None => false end
-  then Some SearchOrArity else None.
+    if (length tokens <=? i1 + 1) then Some None              (* fix c12-6: if i >= len(tokens) { return false } *)
+    else
+      ' (k2, i2) <- take_key tokens (i1 + 1) ;;
+      Some (Some (k1, k2, i2 + 1)).
